@@ -78,24 +78,25 @@ let c08_parse (line : string) =
     (md, dk, h)
   | _ -> failwith "BAD-CASE"
 
-let c08_line ?(full = false) (fx : fixes) (line : string) : string =
+let c08_line (fx : fixes) (line : string) : string =
   let (md, dk, h) = c08_parse line in
   let obs = toy_obs fx md (Obj.magic dk) h in
   let step_m ((v, fr), _) = c08_view v ^ (match fr with Some f -> "~" ^ c08_view f | None -> "") in
   let step_s ((_, fr), s) = c08_view s ^ (match fr with Some f -> "~" ^ c08_view f | None -> "") in
   let model = String.concat "|" (List.map step_m obs) in
-  let conf = (if full then toy_conformant_full else toy_conformant) fx (Obj.magic dk) h in
+  let conf = toy_conformant fx (Obj.magic dk) h in
   let spec = if conf then String.concat "|" (List.map step_s obs) else "-" in
   let ks = List.sort_uniq compare (List.map c08_class_name (toy_classes fx (Obj.magic dk) h)) in
   model ^ "\t" ^ spec ^ "\t" ^ (if ks = [] then "-" else String.concat "," ks)
 
-let () = register "c08.history" (c08_line no_fix)
-let () = register "c08.raw" (c08_line no_fix)
-(* watched notifications naming several files: outside the proved fragment (exploratory leg); spec under the general
-   conformance predicate conf_action_full *)
-let () = register "c08.batch" (c08_line ~full:true no_fix)
-(* the same history against the model with all proposed repairs switched on (not a deciding leg; used by hand and by
-   the fixed-variant self test of checks/c08.py) *)
+(* `deployed` (Model/Events.v) = the repairs that are in /repo now *)
+let () = register "c08.history" (c08_line deployed)
+let () = register "c08.raw" (c08_line deployed)
+(* watched notifications naming several files *)
+let () = register "c08.batch" (c08_line deployed)
+(* the same history against the model with all proposed repairs switched on / with none (not deciding legs; used by
+   hand to validate a repair diff against a patched or an old copy of the code) *)
 let () = register "c08.history_fixed" (c08_line all_fix)
+let () = register "c08.history_unfixed" (c08_line no_fix)
 
 let () = main ()
